@@ -29,7 +29,8 @@ def model_query(case, impl_res):
                 positions=[[[int(x), int(y)] for x, y in p['channel_positions']] for p in P],
                 nts=[len(p['templates']) for p in P], ns=len(P[0]['templates'][0]), toks=[p['tok'] for p in P],
                 pc_ind=[p['pc_feature_ind'] for p in P], tf_ind=[p['template_feature_ind'] for p in P],
-                template_offsets=toff, params=[[int(p['sample_rate']), p['n_channels_dat']] for p in P])
+                template_offsets=toff, spike_templates=[p['spike_templates'] for p in P],
+                params=[[int(p['sample_rate']), p['n_channels_dat']] for p in P])
 
 
 def judge(case, impl_res, ans):
@@ -48,6 +49,8 @@ def judge(case, impl_res, ans):
         raw_off.append(off)
         off = max(c + off for c in p['channel_map']) + 1
     gapped = any(sorted(p['channel_map']) != list(range(len(p['channel_map']))) for p in P)
+    if m.get('template_offsets') != toff:
+        return 'MACHINERY: Lean template offsets (C11.templateOffsets) differ from the cumulative template counts'
     if m['channel_offsets'] != raw_off or m['channel_index_offsets'] != choff or (not gapped and raw_off != choff):
         return 'MACHINERY: Lean channel offsets differ from their definitions (contradicts the theorems)'
     if 'raised' in impl_res:
